@@ -31,7 +31,8 @@ class CachingStreamWrapper(io.IOBase):
 
     def peek(self, n):
         result = self.read(n)
-        self._cache.seek(-len(result), os.SEEK_CUR)
+        if result:  # None: a non-blocking stream has no data at the moment
+            self._cache.seek(-len(result), os.SEEK_CUR)
         return result
 
     def seekable(self):
